@@ -72,6 +72,14 @@ type c12gen struct {
 	dist map[string]int
 	// state of the current case
 	stored []vaa.VAAID
+	down   bool // the badger handle is closed right now (lines carry down=1)
+}
+
+func (g *c12gen) sfx() string {
+	if g.down {
+		return " down=1"
+	}
+	return ""
 }
 
 // chain ids whose decimal renderings are prefixes of one another
@@ -178,7 +186,7 @@ func (g *c12gen) get(id vaa.VAAID) {
 	if res == "ok" {
 		line += " val=" + c12hex(b)
 	}
-	fmt.Fprintln(g.w, line)
+	fmt.Fprintln(g.w, line+g.sfx())
 }
 
 func (g *c12gen) gap(s c12stream) {
@@ -201,7 +209,7 @@ func (g *c12gen) gap(s c12stream) {
 	if res == "ok" {
 		line += fmt.Sprintf(" missing=%s first=%d last=%d", c12u64s(missing), first, last)
 	}
-	fmt.Fprintln(g.w, line)
+	fmt.Fprintln(g.w, line+g.sfx())
 }
 
 func (g *c12gen) gov(ec vaa.ChainID, addr vaa.Address, seqs []uint64) {
@@ -234,7 +242,7 @@ func (g *c12gen) gov(ec vaa.ChainID, addr vaa.Address, seqs []uint64) {
 		}
 		line += " out=" + o
 	}
-	fmt.Fprintln(g.w, line)
+	fmt.Fprintln(g.w, line+g.sfx())
 }
 
 func (g *c12gen) pfx(id vaa.VAAID) {
@@ -517,6 +525,32 @@ func (g *c12gen) undecodableCases() {
 	}
 }
 
+// The store handle unavailable while it is being read (closed, as during a shutdown; every read then fails with an error that is
+// not "not found"): a lookup / gap query / governance batch may fail - that makes no statement - but whatever it does answer has to
+// be right: stored bytes exact, "not found" only for what was never stored, a gap report / batch only the stream's. Afterwards the
+// directory is opened again and everything is asked once more.
+func (g *c12gen) downCases(dir string, n int) {
+	for c := 0; c < n; c++ {
+		g.newCase("down")
+		u := g.universe(3 + g.r.Intn(8))
+		for i := 0; i < 6+g.r.Intn(20); i++ {
+			g.put(g.mkSigned(g.rstream(u), u.seqs[g.r.Intn(len(u.seqs))]))
+		}
+		if err := g.d.Close(); err != nil {
+			panic(err)
+		}
+		g.down = true
+		g.sweep(u, true)
+		g.down = false
+		nd, err := Open(dir)
+		if err != nil {
+			panic("verif: store did not reopen: " + err.Error())
+		}
+		g.d = nd
+		g.sweep(u, true)
+	}
+}
+
 // like mkVAA but always signed with a non-empty payload
 func (g *c12gen) mkSigned(s c12stream, seq uint64) *vaa.VAA {
 	for {
@@ -604,12 +638,13 @@ func TestVerifDb(t *testing.T) {
 	defer f.Close()
 	w := bufio.NewWriterSize(f, 1<<20)
 	defer w.Flush()
-	d, err := Open(t.TempDir())
+	dir := t.TempDir()
+	d, err := Open(dir)
 	if err != nil {
 		t.Fatal(err)
 	}
-	defer d.Close()
 	g := &c12gen{r: rand.New(rand.NewSource(seed)), w: w, d: d, dist: map[string]int{}}
+	defer func() { g.d.Close() }()
 
 	nmix, nbig, nraw := 100, 4, 24
 	if tier == "thorough" {
@@ -655,6 +690,16 @@ func TestVerifDb(t *testing.T) {
 	}
 	for i := 0; i < nraw; i++ {
 		g.rawCase()
+	}
+	// the store handle unavailable during the reads (own generator; last, so that every case above is what it was)
+	{
+		ndown := 4
+		if tier == "thorough" {
+			ndown = 40
+		}
+		g3 := &c12gen{r: rand.New(rand.NewSource(seed ^ 0x3c6ef372)), w: w, d: g.d, dist: g.dist, n: g.n}
+		g3.downCases(dir, ndown)
+		g.d, g.n = g3.d, g3.n
 	}
 	keys := make([]string, 0, len(g.dist))
 	for k := range g.dist {
